@@ -68,31 +68,32 @@ func (v *Violation) Sig() string {
 
 // Run is the state of one path execution.
 type Run struct {
-	w         *worker
-	trail     []Decision
-	pos       int
-	fixed     int     // prefix length owned by the task (never backtracked)
-	pc        []*Term // path condition conjuncts
-	pcIDs     []int
-	inputs    []InputRec
-	nseq      map[string]int
-	tags      []string
-	steps     int
-	viols     []*Violation
-	obs       []ObsRec
-	reached   map[string]bool
-	protoTab  []value
-	clock     int64
-	clockSym  *Term
-	clockMode int
-	aborted   string
-	objs      map[string]value // per-path engine objects (stub state)
-	counter   int
-	panicSite string
-	model     Model
-	mvalid    map[string]bool
-	pcVars    map[string]bool
-	panicFn   string
+	w          *worker
+	trail      []Decision
+	pos        int
+	fixed      int     // prefix length owned by the task (never backtracked)
+	pc         []*Term // path condition conjuncts
+	pcIDs      []int
+	inputs     []InputRec
+	nseq       map[string]int
+	tags       []string
+	steps      int
+	viols      []*Violation
+	obs        []ObsRec
+	reached    map[string]bool
+	protoTab   []value
+	clock      int64
+	clockSym   *Term
+	clockMode  int
+	aborted    string
+	objs       map[string]value // per-path engine objects (stub state)
+	counter    int
+	panicSite  string
+	clockFixed value
+	model      Model
+	mvalid     map[string]bool
+	pcVars     map[string]bool
+	panicFn    string
 }
 
 // ObsRec is a vObserve call.
